@@ -281,6 +281,7 @@ def install(fl) -> bool:
                 finally:
                     _emit(f"engine.{name}", self, first_seq=s0 + 1, raised=raised,
                           outputs=[_oid(v) for v in self.output_variables], blocks=[_oid(b) for b in self.rule_blocks],
+                          onames=[str(v.name) for v in self.output_variables], oenabled=[bool(v.enabled) for v in self.output_variables],
                           benabled=[bool(b.enabled) for b in self.rule_blocks], stubbed=_shadowed(self, name))
             return f
         return maker
